@@ -90,7 +90,8 @@ func init() {
 	// the implicit `return None` is omitted only when the very last element of the instruction stream is a RETURN_VALUE: a trailing label is a jump target that needs an instruction after it  []
 	pathSpec["compile|Instructions.EndsWithReturn"] = []string{
 		"[!(last.(*Op)) && len(is) != 0]  -> false",
-		"[last.(*Op) && len(is) != 0]  -> op.Op == vm.RETURN_VALUE",
+		"[is[len(is) - 1].Op != vm.RETURN_VALUE && last.(*Op) && len(is) != 0]  -> false",
+		"[is[len(is) - 1].Op == vm.RETURN_VALUE && last.(*Op) && len(is) != 0]  -> true",
 		"[len(is) == 0]  -> false",
 	}
 	// incomplete-input decision (lexer half): a parse error without a message of its own is reported as 'unexpected EOF while parsing' exactly when the input ran out (x.eof), otherwise as 'invalid syntax' — the REPL continues a statement on the former  []
@@ -183,10 +184,6 @@ func init() {
 	// symbol-table update after scope analysis: scope bits are recorded; in a class block a name that is free in a method and bound OR declared global in the class gets DefFreeClass; a free name unknown to the block is added as free [symtable.c update_symbols] — the compiler's closure construction relies on it  []
 	pathSpec["symtable|Symbols.Update"] = []string{
 		"[] LOOP(range symbols){[]  }; LOOP(range free){[!(bound.Contains(name)) && !(has(symbols[name]))]   | [!(classflag) && has(symbols[name])]   | [!(has(symbols[name])) && bound.Contains(name)]   | [(symbol.Flags & (DefBound | DefGlobal)) != 0 && classflag && has(symbols[name])]   | [(symbol.Flags & (DefBound | DefGlobal)) == 0 && classflag && has(symbols[name])]  }",
-	}
-	// one layout pass: each instruction gets its position, jumps are resolved (possibly widening the instruction) and only then the address advances by the instruction's size  []
-	pathSpec["compile|Instructions.Pass"] = []string{
-		"[] LOOP(range is){[!(instr.(Resolver)) && pass >= 1] is[*].SetPos(idx(is), loop:addr); is[*].Size()  | [instr.(Resolver) && pass >= 1] is[*].SetPos(idx(is), loop:addr); is[*].Resolve(); is[*].Size()  | [pass <= 0] is[*].SetPos(idx(is), loop:addr); is[*].Size() } -> after-loop:changed",
 	}
 	// repr/ascii escaping per character class: control characters as \t \n \r \xHH; in repr mode printable ASCII with backslash and the chosen quote escaped; in ascii mode ASCII passes through untouched (the text is an already escaped repr); Latin-1, BMP and astral characters printable-or-escaped by width  []
 	pathSpec["py|StringEscape"] = []string{
